@@ -22,6 +22,9 @@ RULE = (
     'for the file type x float32/float64 x deprecated load_pos/load_vel combinations x explicit colname; files with two or none of the known raw columns. '
     'A case = one read_asdf call whose column set, row count, values and meta are checked. non-trivial = distinct (file type, N class, header kind, compression, load subset, dtype)'
 )
+RULE += (
+    ' Added after seeded round 9: a PID column stored under another name (packedpid_A, halo_pid) and named explicitly, default and explicit load lists; 8 files of up to 700000 records read by 8 threads at the same time.'
+)
 ASSUMPTIONS = [
     "loadable columns: rvint/pack9 -> pos, vel; packedpid/pid -> pid, lagr_pos, tagged, density, lagr_idx, aux (as documented)",
     'tolerances as in C04 (1 ulp) and C15 (float64 1e-12 BoxSize, float32 8 ulp BoxSize)',
@@ -372,6 +375,40 @@ def check(run):
         t = RA.read_asdf(two, colname='packedpid', load=['pid', 'aux'], verbose=False)
         run.ev()
         check_table(run, t, 'packedpid', pp, hdr, ['pid', 'aux'], np.float32, dict(file='two-known-columns', colname='packedpid'))
+        # a thread pool over files (the usual way a directory of slab files is read): every table equals the decode of its own file
+        import threading
+
+        tfiles = []
+        for j, (ftype, N) in enumerate((('pack9', 600000), ('rvint', 300011), ('pack9', 500000), ('packedpid', 250000), ('pack9', 700000), ('rvint', 777), ('pack9', 31000), ('pid', 400000))):
+            fn, data, thdr = make_file(rng, d, ftype, N, ['snapshot', 'lightcone'][j % 2], [None, None, 'blsc', 'zlib'][j % 4], 1000 + j)
+            tfiles.append((fn, ftype, data, thdr))
+        for rep in range(2 if run.quick else 12):
+            res = [None] * len(tfiles)
+            bar = threading.Barrier(len(tfiles))
+
+            def work(i):
+                bar.wait()
+                try:
+                    with warnings.catch_warnings():
+                        warnings.simplefilter('ignore')
+                        res[i] = RA.read_asdf(tfiles[i][0], dtype=[np.float32, np.float64][(i + rep) % 2], verbose=False)
+                except Exception as e:  # noqa
+                    res[i] = e
+
+            ths = [threading.Thread(target=work, args=(i,)) for i in range(len(tfiles))]
+            [t.start() for t in ths]
+            [t.join() for t in ths]
+            run.ev()
+            run.nt(('thread-pool-over-files', rep))
+            for i, (fn, ftype, data, thdr) in enumerate(tfiles):
+                run.count('tables_read_concurrently')
+                ft = 'packedpid' if ftype == 'pid' else ftype
+                tdesc = dict(file_type=ftype, N=len(data), readers_at_once=len(tfiles), repetition=rep)
+                if isinstance(res[i], Exception):
+                    run.violation('read-asdf-concurrent-readers', dict(error=f'{type(res[i]).__name__}: {res[i]}'[:200], **tdesc))
+                    break
+                if check_table(run, res[i], ft, data, thdr, ['pos', 'vel'] if ftype in ('rvint', 'pack9') else ['pid'], [np.float32, np.float64][(i + rep) % 2], tdesc):
+                    break
         # a PID column stored under another name ("probably one of ..."): not detected, but once named explicitly it is read like any PID column,
         # by default as 'pid'
         for cn in ('packedpid_A', 'halo_pid'):
